@@ -24,6 +24,7 @@ def trace(tid):
 ALPHABET = ([['load', t] for t in TIDS] + [['unload', t] for t in TIDS] + [['fail', 'missing', 'q1'], ['fail', 'ext', 'q2'], ['fail', 'ext', 't0']]
             + [['step', 1], ['step', -1], ['step', 3], ['reval', 1], ['reval', 3], ['reval', -1]] + [['stepid', t, 1] for t in TIDS] + [['stepid', 't0', -1], ['stepid', 'tB', 4]]
             + [['setall', 0], ['setall', 2], ['setall', 4], ['setall', 6]]
+            + [['stepexpr', ['t0', 'tB'], 3], ['stepexpr', ['tB', 't0'], 2]]
             + [['stepids', ['t0', 'tB'], 2], ['stepids', ['tB', 't0'], 3], ['stepids', ['zz', 'tB'], 1], ['stepids', ['t0', 'zz', 'tB'], -1]])
 
 
@@ -124,6 +125,19 @@ class C12(framework.PropertyCheck):
                     continue
                 plan.append((('eval', 'eorg', '(step ' + ' '.join(f'"{t}"' for t in op[1]) + f' {op[2]})'), ('fail',)))
                 break
+            elif k == 'stepexpr':
+                # the amount is computed once, from the position of the first-named trace before anything moves
+                if any(t not in loaded for t in op[1]):
+                    continue
+                a0 = op[2] - loaded[op[1][0]]
+                ok = True
+                for t in op[1]:
+                    ni = loaded[t] + a0
+                    if 0 <= ni < LENS[t]:
+                        loaded[t] = ni
+                    else:
+                        ok = False
+                plan.append((('eval', 'eorg', '(step ' + ' '.join(f'"{t}"' for t in op[1]) + f' (- {op[2]} {op[1][0]}^INDEX))'), ('val', ('B', ok))))
             elif k == 'stepids':
                 if any(t not in loaded for t in op[1]):
                     continue
